@@ -41,7 +41,7 @@ REPS = {
                    "f32": [2.0 ** 53, 2.0 ** 60, 3.0e38]},
     "fint_big_n": {"py": [-(2.0 ** 53), -(2.0 ** 60), -1e22, -1e300], "f64": [-(2.0 ** 53), -(2.0 ** 60), -1e22, -1e300],
                    "f32": [-(2.0 ** 53), -(2.0 ** 60), -3.0e38]},
-    "ffrac": {"py": [0.5, -3.25, 1e-300, 2.0 ** 52 + 0.5, 123.456], "f64": [0.5, -3.25, 1e-300, 2.0 ** 52 + 0.5, 123.456],
+    "ffrac": {"py": [0.5, -3.25, 1e-300, 2.0 ** 51 + 0.5, 123.456], "f64": [0.5, -3.25, 1e-300, 2.0 ** 51 + 0.5, 123.456],
               "f32": [0.5, -3.25, 1e-30, 123.456]},
     "fmax_p": {"py": [1.7976e308, FMAX, 1.79769e308], "f64": [1.7976e308, FMAX, 1.79769e308]},
     "fmax_n": {"py": [-1.7976e308, -FMAX, -1.79769e308], "f64": [-1.7976e308, -FMAX, -1.79769e308]},
@@ -57,6 +57,18 @@ NREPS = max(len(v) for d in REPS.values() for v in d.values())
 def jopts(ctx):
     """JVM options: short runs are dominated by JIT/GC thread start-up on a many-core box"""
     return ["-XX:TieredStopAtLevel=1", "-XX:CICompilerCount=2", "-XX:ParallelGCThreads=2"] if ctx.quick else ["-XX:ParallelGCThreads=4"]
+
+
+def violating_cases(stdout, var="cid"):
+    """TLC -continue output -> {case index: first violated invariant}; works for initial and later states"""
+    bad = {}
+    ms = list(re.finditer(r"Invariant (\S+) is violated", stdout))
+    for n, m in enumerate(ms):
+        end = ms[n + 1].start() if n + 1 < len(ms) else len(stdout)
+        mm = re.compile(r"/\\ %s = (\d+)" % var).search(stdout, m.end(), end)
+        if mm:
+            bad.setdefault(int(mm.group(1)), m.group(1))
+    return bad
 
 
 def np_dtype(dt):
@@ -123,17 +135,25 @@ def classify_out(x):
 
 
 def same_value(out, ref):
+    """exact equality of the returned leaf with the input leaf (no float32/float64 rounding in the comparison)"""
     import numpy as np
+    from fractions import Fraction
     if isinstance(out, np.ndarray) and out.ndim == 0:
         out = out[()]
+    num = (int, float, np.integer, np.floating)
     try:
-        if isinstance(ref, (float, np.floating)) and math.isnan(float(ref)):
-            return isinstance(out, (float, np.floating)) and math.isnan(float(out))
         if isinstance(ref, str) or isinstance(out, str):
             return type(out) is type(ref) and out == ref
-        if isinstance(ref, (bool, np.bool_)) != isinstance(out, (bool, np.bool_)):
+        if isinstance(ref, (bool, np.bool_)) or isinstance(out, (bool, np.bool_)):
+            return isinstance(ref, (bool, np.bool_)) and isinstance(out, (bool, np.bool_)) and bool(out) == bool(ref)
+        if not (isinstance(out, num) and isinstance(ref, num)):
             return False
-        return bool(out == ref)
+        fo, fr = (float(out) if isinstance(out, (float, np.floating)) else None), (float(ref) if isinstance(ref, (float, np.floating)) else None)
+        if fr is not None and math.isnan(fr):
+            return fo is not None and math.isnan(fo)
+        if (fo is not None and not math.isfinite(fo)) or (fr is not None and not math.isfinite(fr)):
+            return fo == fr
+        return Fraction(fo if fo is not None else int(out)) == Fraction(fr if fr is not None else int(ref))
     except Exception:  # noqa: BLE001
         return False
 
@@ -281,15 +301,9 @@ def run(ctx):
     if not tres.ok:
         if tres.kind != "invariant":
             ctx.machinery(f"JsonTruncTrace failed: {tres.violated}\n{tres.stdout[-1500:]}")
-        # with -continue TLC prints every violating state; the invariant name precedes each
-        for m in re.finditer(r"Invariant (\S+) is violated[^\n]*\n(?:.*\n)*?State 1:[^\n]*\n((?:/\\ [^\n]*\n|[^/\n][^\n]*\n)*)", tres.stdout):
-            mm = re.search(r"/\\ cid = (\d+)", m.group(2))
-            if mm:
-                bad.setdefault(int(mm.group(1)), m.group(1))
+        bad = violating_cases(tres.stdout)
         if not bad:
-            for _, st in tres.trace:
-                if "cid" in st:
-                    bad.setdefault(st["cid"], tres.violated)
+            ctx.machinery(f"JsonTruncTrace reported {tres.violated} but no case could be identified\n{tres.stdout[-1500:]}")
     for k, inv in sorted(bad.items()):
         e = records[order[k - 1]]
         rec = e["rec"]
